@@ -122,6 +122,13 @@ func hostileBodies(rng *gen.RNG) []string {
 	for i := 0; i < 40; i++ {
 		out = append(out, string(rng.Bytes(rng.Intn(300))))
 	}
+	// fields that are echoed in error bodies, at sizes around buffer thresholds (4 KiB, 8 KiB, 64 KiB)
+	for _, n := range []int{3000, 4090, 4100, 8200, 20000, 70000} {
+		big := strings.Repeat("OCRA-1:HOTP-SHA1-6:QN08-", n/24)
+		out = append(out, `{"secret":"GEZDGNBVGY3TQOJQGEZDGNBVGY3TQOJQ","code":"123456","raw_suite":"`+big+`","input":{}}`,
+			`{"secret":"GEZDGNBVGY3TQOJQ","issuer":"i","account_name":"a","type":"`+big+`"}`,
+			`{"raw_suite":"`+big+`"}`)
+	}
 	return out
 }
 
@@ -390,8 +397,13 @@ func runC19(c *Ctx) {
 	}
 	// concurrent phase: 32 connections
 	conc := reqs[len(reqs)*2/3:]
+	large := c18LargeCases(c, len(conc)/8+20)
 	monParallel(len(conc), 32, func(i int) {
 		judgeHostile(c, srv, conc[i], false)
+		if i%8 == 0 && i/8 < len(large) {
+			judgeREST(c, srv, large[i/8]) // large well-formed responses in flight together with hostile traffic
+			r.Count("probes_with_large_responses", 1)
+		}
 		if i%5 == 4 {
 			if j := len(probes) - 1 - i/5; j >= pi {
 				judgeREST(c, srv, probes[j])
